@@ -135,6 +135,25 @@ def check_case(ctx, cs):
                             okm = okm and close_seq(got2[k][l], mapped(o["D"][k][l], k == 0 and l == 0), 1e-8)
                 if not okm:
                     ctx.violate(fsite, tg + ["after_affine_map"], small, {"got": got2[0] if pd == 1 else got2[0][0]})
+        # re-assignment of the knot vector on the same (already queried) object: derivatives follow the new parametrisation
+        # (oracle: a freshly built object with the new knot vector - fresh objects are tied to the spec by the cases above)
+        if order == 2 and pd == 1:
+            U = sh["kv"][0]
+            p0 = sh["deg"][0]
+            interior = U[p0 + 1:len(U) - p0 - 1]
+            if interior and U[0] == [0, 1] and U[-1] == [1, 1] and U[p0] == [0, 1] and U[len(U) - p0 - 1] == [1, 1]:   # clamped on [0, 1]
+                newU = U[:p0 + 1] + [[k[0], k[1] * 2] for k in interior] + U[len(U) - p0 - 1:]     # interior knots halved: still valid
+                sh2 = dict(sh, kv=[newU])
+                try:
+                    ob = build(sh)
+                    ob.derivatives(*prm, order=order)
+                    ob.knotvector = [n / float(d) for n, d in newU]
+                    got3 = ob.derivatives(*prm, order=order)
+                    ref3 = build(sh2).derivatives(*prm, order=order)
+                    if not close_seq(got3, ref3, 1e-9):
+                        ctx.violate(cname + ".derivatives", tg + ["after_knotvector_reassignment"], small, {"got": got3[1], "fresh_object": ref3[1]})
+                except Exception as e:
+                    ctx.violate(cname + ".derivatives", tg + ["after_knotvector_reassignment", "raises"], small, {"exception": repr(e)[:200]})
         if order == 1:
             D = o["D"]
             # exact first derivatives: from D when present, otherwise from the code's (already checked) table
